@@ -32,6 +32,15 @@ pub fn families() -> Vec<Family> {
         .steps(3_000_000)
         .tokio(),
         Family::new(
+            "c09_ws_raw",
+            "C09",
+            "the raw SVS protocol (open / next / cancel) spoken by a raw WebSocket peer to the real WebSocketServer (next runs off-reader): chunks concatenate to the producer's bytes with exactly one final marker, pulling past the end or after a cancel is an error - including a cancel pipelined right behind a next that is still parked in a slow producer, on the same connection",
+            c09_ws_raw,
+        )
+        .runs(8_000, 480_000)
+        .steps(3_000_000)
+        .tokio(),
+        Family::new(
             "c10_async_file",
             "C10",
             "pull_to_file_async / _verified_async / _trailer_verified_async with producer failure, rejecting verifier, over-long trailer, rename failure, connection loss mid-transfer and the pull future abandoned at its k-th poll; destination sampled at every commit-path probe and every simulated millisecond",
@@ -159,6 +168,169 @@ fn c09_async_pull(case: &Case) {
             case.probe("multi_chunk_stream");
         }
         case.nontrivial();
+    });
+}
+
+// ---------------------------------------------------------------- raw protocol over WebSocket
+
+fn c09_ws_raw(case: &Case) {
+    use crate::codec::Frame;
+    use crate::families::svs::{CancelReq, NextReq, OpenReq, OpenResp};
+    use crate::families::ws_common::{Inbox, check_inbox_clean, raw_connect, send_frame, spawn_collector, wait_until};
+    use futures_util::StreamExt;
+    net::reset(draw_net());
+    let chunk = pick(&[1usize, 2, 7, 16, 64, 1000]);
+    let opts = draw_opts(chunk);
+    let payload = draw_payload(chunk, true);
+    let logical = payload.logical();
+    // cancel after that many chunks; pipelined = sent right behind a `next` without waiting
+    let cancel_after = if simkernel::choose(3) == 0 { Some(range(0, 3)) } else { None };
+    let pipelined = simkernel::choose(2) == 0;
+    let cancel_as_notify = simkernel::choose(3) == 0;
+    case.sample(json!({"producer": payload.kind(), "logical_len": logical.len(), "chunk_bytes": chunk, "depth": opts.session_depth,
+        "compression": format!("{:?}", opts.compression), "producer_fails": payload.fails(), "cancel_after_chunks": cancel_after, "cancel_pipelined_behind_next": pipelined, "cancel_as_notify": cancel_as_notify}));
+    let zstd_on = opts.compression == Compression::Zstd;
+    let case = case.clone();
+    aio::run(&case.clone(), 3_600, async move {
+        let listener = WebSocketServer::listen("127.0.0.1:0").await.unwrap();
+        let addr = listener.local_addr().unwrap();
+        let server = WebSocketServer::new(router_for(&payload, opts));
+        let srv = tokio::spawn(async move {
+            let _ = server.serve_listener(listener, "/repe").await;
+        });
+        let Ok(ws) = raw_connect(addr, "/repe").await else {
+            case.harness_error("handshake failed");
+            return;
+        };
+        let (mut sink, stream) = ws.split();
+        let inbox = Arc::new(Inbox::default());
+        let collector = spawn_collector(stream, inbox.clone());
+        let mut id = 0u64;
+        macro_rules! call {
+            ($path:expr, $body:expr) => {{
+                id += 1;
+                let want = id;
+                let _ = send_frame(&mut sink, &Frame::new(want, $path, &$body).with_formats(1, 1)).await;
+                let ib = inbox.clone();
+                wait_until(600_000, || !ib.responses_for(want).is_empty() || ib.ended()).await;
+                inbox.responses_for(want).into_iter().next()
+            }};
+        }
+        let Some(open) = call!(b"/_svs/open", beve::to_vec(&OpenReq { resource: "res".into() }).unwrap()) else {
+            case.fail("svs-open-failed", "no reply to open");
+            return;
+        };
+        let info = match (open.ec, beve::from_slice::<OpenResp>(&open.body)) {
+            (0, Ok(i)) => i,
+            _ => {
+                case.fail("svs-open-failed", format!("open returned ec {}", open.ec));
+                return;
+            }
+        };
+        let sid = info.stream_id;
+        let next_body = beve::to_vec(&NextReq { stream_id: sid }).unwrap();
+        let mut chunks: Vec<Vec<u8>> = Vec::new();
+        let (mut lasts, mut errored, mut pulls, mut cancelled) = (0u32, false, 0u32, false);
+        loop {
+            if cancel_after == Some(pulls) {
+                let cbody = beve::to_vec(&CancelReq { stream_id: sid, reason: "enough".into() }).unwrap();
+                let mut overlapped: Option<u64> = None;
+                if pipelined {
+                    // a `next` goes first and may still be parked in the producer when the cancel lands
+                    id += 1;
+                    overlapped = Some(id);
+                    let _ = send_frame(&mut sink, &Frame::new(id, b"/_svs/next", &next_body).with_formats(1, 1)).await;
+                }
+                if cancel_as_notify {
+                    let _ = send_frame(&mut sink, &Frame::new(77_000, b"/_svs/cancel", &cbody).with_formats(1, 1).notify(1)).await;
+                    // (nothing acknowledges a notify: give it time to be dispatched)
+                    sleep_ms(50).await;
+                } else {
+                    let Some(r) = call!(b"/_svs/cancel", cbody) else {
+                        case.fail("connection-lost", "no reply to cancel");
+                        return;
+                    };
+                    case.check(r.ec == 0, "cancel-failed", || format!("cancel returned ec {}", r.ec));
+                }
+                if let Some(o) = overlapped {
+                    let ib = inbox.clone();
+                    if !wait_until(600_000, || !ib.responses_for(o).is_empty() || ib.ended()).await || inbox.responses_for(o).is_empty() {
+                        case.fail("svs-next-failed", "the next that a cancel overlapped was never answered");
+                        return;
+                    }
+                    case.probe("cancel_overlapped_a_next_on_the_same_connection");
+                }
+                cancelled = true;
+                // whatever the overlapped next returned, the stream is released now
+                for _ in 0..2 {
+                    let Some(r) = call!(b"/_svs/next", next_body.clone()) else {
+                        case.fail("connection-lost", "no reply to next after cancel");
+                        return;
+                    };
+                    case.check(r.ec != 0, "next-after-cancel-ok", || format!("next after an applied cancel returned a chunk of {} bytes", r.body.len()));
+                }
+                break;
+            }
+            let Some(r) = call!(b"/_svs/next", next_body.clone()) else {
+                case.fail("svs-next-failed", "connection lost during next");
+                return;
+            };
+            pulls += 1;
+            if r.ec != 0 {
+                errored = true;
+                break;
+            }
+            case.check(r.query.len() == 1 && r.query[0] <= 1, "last-flag-encoding", || format!("next response query {:?}", r.query));
+            chunks.push(r.body.clone());
+            if r.query.first().copied() == Some(1) {
+                lasts += 1;
+                break;
+            }
+            if pulls > 100_000 {
+                case.fail("svs-endless", "more than 100000 chunks");
+                return;
+            }
+        }
+        let concat: Vec<u8> = chunks.concat();
+        if !cancelled {
+            if payload.fails() {
+                case.check(errored && lasts == 0, "producer-failure-looks-clean", || format!("producer failed but the stream ended with last={lasts} errored={errored} after {} bytes", concat.len()));
+                if !zstd_on {
+                    case.check(logical.starts_with(&concat), "corrupt-prefix", || "chunks before the failure are not a prefix of the producer's bytes".into());
+                }
+            } else if case.check(!errored && lasts == 1, "missing-final-marker", || format!("stream ended with errored={errored} lasts={lasts}")) {
+                let got = if zstd_on { unzstd(&concat) } else { Some(concat.clone()) };
+                case.check(got.as_deref() == Some(&logical[..]), "stream-bytes-differ", || format!("pulled {} bytes in {} chunks, producer emitted {} logical bytes", concat.len(), chunks.len(), logical.len()));
+                if logical.is_empty() && !zstd_on {
+                    case.check(chunks.len() == 1 && chunks[0].is_empty(), "empty-payload-shape", || format!("empty payload produced {} chunks", chunks.len()));
+                }
+                if chunks.len() >= 2 {
+                    case.probe("multi_chunk_stream");
+                }
+            }
+            // pulling past the end (or after the failure) is an error
+            if let Some(r) = call!(b"/_svs/next", next_body.clone()) {
+                case.check(r.ec != 0, "next-past-end-ok", || format!("next past the end returned ec 0 with {} bytes", r.body.len()));
+            }
+        } else if !zstd_on && !payload.fails() {
+            case.check(logical.starts_with(&concat), "corrupt-prefix", || "chunks before the cancel are not a prefix of the producer's bytes".into());
+        }
+        // the connection is still fine and a fresh stream starts from the beginning
+        if let Some(o2) = call!(b"/_svs/open", beve::to_vec(&OpenReq { resource: "res".into() }).unwrap()) {
+            if o2.ec == 0
+                && let Ok(i2) = beve::from_slice::<OpenResp>(&o2.body)
+            {
+                case.check(i2.stream_id != sid, "stream-id-reused", || format!("a second stream got the id {sid} of the first"));
+                let _ = call!(b"/_svs/cancel", beve::to_vec(&CancelReq { stream_id: i2.stream_id, reason: "done".into() }).unwrap());
+            }
+        } else {
+            case.fail("connection-lost", format!("no reply to a second open (ended={})", inbox.ended()));
+        }
+        check_inbox_clean(&case, "WebSocketServer", &inbox);
+        case.nontrivial();
+        let _ = timeout(Duration::from_secs(2), futures_util::SinkExt::close(&mut sink)).await;
+        let _ = timeout(Duration::from_secs(2), collector).await;
+        srv.abort();
     });
 }
 
